@@ -189,9 +189,11 @@ pub open spec fn sp_whiteout_node(mode: u32, rdev: u32) -> bool { mode & 0o17000
 // "A directory is made opaque by setting the xattr "trusted.overlay.opaque" to "y"" (+ the user.* spellings this crate also honours; the
 // crate accepts "Y" as well, the kernel only "y")
 pub open spec fn sp_opaque_value(v: Seq<u8>) -> bool { v.len() == 1 && (v[0] == 121u8 || v[0] == 89u8) }
-pub open spec fn opq_name0() -> Seq<u8> { str_bytes(OPAQUE_XATTR@) }
-pub open spec fn opq_name1() -> Seq<u8> { str_bytes(PRIVILEGED_OPAQUE_XATTR@) }
-pub open spec fn opq_name2() -> Seq<u8> { str_bytes(UNPRIVILEGED_OPAQUE_XATTR@) }
+// the marker names, PINNED here as byte strings (not taken from the crate's constants): the fuse-overlayfs marker, the kernel's privileged
+// marker (Documentation/filesystems/overlayfs.rst: "trusted.overlay.opaque"), the kernel's marker under the `userxattr` mount option
+pub open spec fn opq_name0() -> Seq<u8> { seq![%(N0)s] }      // "user.fuseoverlayfs.opaque"
+pub open spec fn opq_name1() -> Seq<u8> { seq![%(N1)s] }      // "trusted.overlay.opaque"
+pub open spec fn opq_name2() -> Seq<u8> { seq![%(N2)s] }      // "user.overlay.opaque"
 pub open spec fn sp_opaque_name(n: Seq<u8>) -> bool { n == opq_name0() || n == opq_name1() || n == opq_name2() }
 pub open spec fn sp_xattr_opaque(r: Result<GetxattrReply>) -> bool { r is Ok && r->Ok_0 is Value && sp_opaque_value(r->Ok_0->Value_0@) }
 // the directory `ino` of layer `l` carries an opaque mark / the object `ino` is a whiteout
@@ -220,6 +222,10 @@ impl File {
     { unimplemented!() }
 }
 '''
+
+DOC_NAMES = dict(N0=b'user.fuseoverlayfs.opaque', N1=b'trusted.overlay.opaque', N2=b'user.overlay.opaque')
+for _k, _v in DOC_NAMES.items():
+    PRE = PRE.replace('%%(%s)s' % _k, ', '.join('%du8' % b for b in _v))
 
 LAYER_OBJ = r'''
 // `Box<dyn Layer<Inode = u64, Handle = u64> + Send + Sync>`: an opaque implementor (dynamic dispatch -> one uninterpreted implementor)
@@ -263,6 +269,27 @@ STATIC_STR = [(': &str', ": &'static str")]       # the elided lifetime of a con
 LIBC_DEV = (r'\blibc::(major|minor|makedev)\(', r'libc_dev::\1(', 'every: libc device-number helpers -> verified copies of libc 0.2.189 (module libc_dev)')
 
 
+def str_const_bytes(root, file, names):
+    """R11 for `const NAME: &str = "literal";`: the UTF-8 bytes of each literal, computed here from the constant's text on every run, stated as
+    what `str_bytes` (the uninterpreted UTF-8 encoding) gives for the constant (assumed lemma `lemma_str_consts`: the extractor's computation
+    is trusted, as for R11).  The SPECIFICATION does not use it: it pins the protocol's names itself (opq_name0/1/2); the checked statement
+    `opaque_names_pinned` says the two agree."""
+    src = X.Source(root, file)
+    ens = []
+    for n in names:
+        m = re.search(r'(?m)^\s*pub const %s\s*:\s*&(?:\'static\s+)?str\s*=\s*"((?:[^"\\]|\\.)*)"\s*;' % re.escape(n), src.src)
+        if not m:
+            raise X.ExtractError('str const not found: %s::%s' % (file, n))
+        bs = bytes(m.group(1), 'utf-8').decode('unicode_escape').encode('utf-8')
+        ens.append('str_bytes(%s@) == seq![%s]' % (n, ', '.join('%du8' % b for b in bs)))
+    return ("#[verifier::external_body] pub proof fn lemma_str_consts()\n    ensures " + ',\n        '.join(ens) + "\n{ }\n"
+            "// the names is_opaque consults and set_opaque writes are exactly the protocol's; the read buffer can hold the one-byte value\n"
+            "pub proof fn opaque_names_pinned()\n"
+            "    ensures str_bytes(OPAQUE_XATTR@) == opq_name0() && str_bytes(PRIVILEGED_OPAQUE_XATTR@) == opq_name1() && str_bytes(UNPRIVILEGED_OPAQUE_XATTR@) == opq_name2(), // [C10.layer.is_opaque.names] user.fuseoverlayfs.opaque / trusted.overlay.opaque / user.overlay.opaque, byte for byte\n"
+            "        OPAQUE_XATTR_LEN >= 1, // [C10.layer.is_opaque.len]\n"
+            "{ lemma_str_consts(); }\n")
+
+
 def common_items(root, notes, with_setattr=False):
     """types copied from /repo + the layer model"""
     T, I = gen_fs_model(root, notes)
@@ -274,7 +301,7 @@ def common_items(root, notes, with_setattr=False):
         Copy(ABI, r'pub struct CreateIn\b', prefix='#[derive(Clone, Copy)]'),
         Copy(LAYER, r'pub const OPAQUE_XATTR_LEN\b'), Copy(LAYER, r'pub const OPAQUE_XATTR\b', subst=STATIC_STR),
         Copy(LAYER, r'pub const UNPRIVILEGED_OPAQUE_XATTR\b', subst=STATIC_STR), Copy(LAYER, r'pub const PRIVILEGED_OPAQUE_XATTR\b', subst=STATIC_STR),
-        Raw(PRE), Raw(LAYER_OBJ),
+        Raw(PRE), Raw(str_const_bytes(root, LAYER, ('OPAQUE_XATTR', 'PRIVILEGED_OPAQUE_XATTR', 'UNPRIVILEGED_OPAQUE_XATTR'))), Raw(LAYER_OBJ),
     ]
     from vx import flagsmodel
     items += flagsmodel.items(root, ABI, 'SetattrValid')
